@@ -20,7 +20,6 @@ type c06Route struct {
 	live   bool // accepted by Add and not deleted
 }
 
-
 func c06Label(name string, w int) string { return zzverif.StringOf(name, w, c06Alpha) }
 
 func c06MakeRoute(w int, maxLoc int) *c06Route {
